@@ -169,6 +169,10 @@ func runRangeLabelAgreement(c *Ctx, r *Rep) {
 				continue
 			}
 			id := declID(p, fd)
+			if isNewFunc(id) {
+				continue // seen in the functions it was extracted from
+			}
+			fd = c.Expand(p, fd)
 			ast.Inspect(fd.Body, func(nd ast.Node) bool {
 				cc, ok := nd.(*ast.CaseClause)
 				if !ok || len(cc.List) < 3 {
